@@ -179,6 +179,9 @@ pub struct World {
     inner: Mutex<Inner>,
     /// subscribes probe `s` to the root (for probes that subscribe from inside a handler)
     attach_hook: Mutex<Option<AttachHook>>,
+    /// what a `Poke` means when there are no puppet sources (the clock engine: let virtual time advance to the next
+    /// timer expiry from inside the handler, as a slow handler does on a real executor)
+    poke_hook: Mutex<Option<Arc<dyn Fn(u8) + Send + Sync>>>,
     /// run at the end of a scenario: break the reference cycles between harness actors and crate
     /// closures so that a campaign of millions of scenarios does not accumulate memory
     cleanups: Mutex<Vec<Box<dyn FnOnce() + Send>>>,
@@ -188,6 +191,7 @@ impl World {
     pub fn new(sc: &Scenario) -> Arc<World> {
         Arc::new(World {
             attach_hook: Mutex::new(None),
+            poke_hook: Mutex::new(None),
             cleanups: Mutex::new(vec![]),
             inner: Mutex::new(Inner {
                 log: Vec::with_capacity(256),
@@ -266,12 +270,20 @@ impl World {
             Message::Terminate => M::Terminate,
         }
     }
+    pub fn set_poke_hook(&self, h: Option<Arc<dyn Fn(u8) + Send + Sync>>) {
+        *self.poke_hook.lock().unwrap_or_else(|e| e.into_inner()) = h;
+    }
     pub fn set_attach_hook(&self, h: Option<AttachHook>) {
         *self.attach_hook.lock().unwrap_or_else(|e| e.into_inner()) = h;
     }
     /// a push from upstream nested in a delivery: the latest live instance of puppet `k mod n` that belongs to
     /// subscription `owner` emits its next item (or its end) now
     pub fn poke(&self, owner: u8, k: u8) {
+        let hook = self.poke_hook.lock().unwrap_or_else(|e| e.into_inner()).clone();
+        if let Some(h) = hook {
+            h(k);
+            return;
+        }
         let target = {
             let mut g = self.lock();
             let n = g.pup_drivers.len();
@@ -334,6 +346,7 @@ impl World {
     /// ends the scenario: releases what the actors hold and hands out the history
     pub fn into_history(&self) -> History {
         self.set_attach_hook(None);
+        self.set_poke_hook(None);
         let cl: Vec<_> = std::mem::take(&mut *self.cleanups.lock().unwrap_or_else(|e| e.into_inner()));
         for f in cl {
             f();
@@ -520,6 +533,11 @@ impl<T: Send + Sync + 'static> Puppet<T> {
 
 impl<T: Send + Sync + 'static> Puppet<T> {
     fn do_act(self: &Arc<Self>, inst: usize, act: PAct) {
+        if self.spec.forget_sink {
+            // a source that has dropped its subscriber's handle cannot send anything
+            self.world.lock().skipped_by_guard += 1;
+            return;
+        }
         // guard, evaluated at the moment the action would begin
         let (ok, emitted) = {
             let mut g = self.world.lock();
@@ -596,6 +614,12 @@ impl<T: Send + Sync + 'static> Puppet<T> {
         }
         let tb = self.talkback(inst);
         self.send(inst, M::Handshake, Message::Handshake(tb));
+        if self.spec.forget_sink {
+            // this source never sends anything again and keeps nothing of its subscriber
+            let noop: Arc<Sink<T>> = Arc::new((|_m: Message<T, never::Never>| {}).into());
+            self.sinks.lock().unwrap_or_else(|e| e.into_inner())[inst] = noop;
+            return;
+        }
         for a in self.spec.burst.clone() {
             self.do_act(inst, a);
         }
